@@ -65,7 +65,11 @@ RULE = ("per enumeration (1..200 members; names that are prefixes of each other,
         "position by decode_to_str, run borders / 65535 / 65536 / every 997th by decode) and, for ints, names and "
         "members, inputs whose ONLY invalid element (a float inside the index range, an out-of-range index, the "
         "bytes of a member name, None, an unknown name, a foreign member, an element of another kind) is at "
-        "position 0, 65535, 65536 or last")
+        "position 0, 65535, 65536 or last.  After EVERY encode of a numpy array or list the harness overwrites "
+        "its own input buffer (other valid indices / values that designate nothing / '~' / None) BEFORE it looks at "
+        "the returned array: indices, decode, decode_to_str and re-encoding must be those of the input as it was "
+        "when encoded.  uint8 inputs (the index dtype) come as fresh arrays, as first.view(numpy.ndarray) of an "
+        "EnumArray, as arrays over a bytearray and as strided slices; int8 as well")
 TRUSTED = ["numpy 1.26 (asarray, isin, argsort, searchsorted, fancy indexing, unicode comparison) and Python's "
            "enum machinery are modelled by EnumModel.v (lists, insertion sort, binary search), covered by the "
            "correspondence only"]
@@ -182,6 +186,15 @@ def mk_input(classes, x):
         pv = None if x["pv"] is None else classes[x["pv"]]
         return ie.EnumArray(numpy.array(x["values"], dtype=numpy.uint8), pv)
     if k == "arr_int":
+        via = x.get("via")
+        if via == "view":          # the raw indices of an EnumArray: first.view(numpy.ndarray), dtype uint8
+            return ie.EnumArray(numpy.array(x["values"], dtype=numpy.uint8), classes[0]).view(numpy.ndarray)
+        if via == "bytearray":     # a writable uint8 array over a caller's byte buffer
+            return numpy.frombuffer(bytearray(x["values"]), dtype=numpy.uint8)
+        if via == "strided":       # every second item of a larger array
+            base = numpy.zeros(2 * len(x["values"]), dtype=x["dtype"])
+            base[::2] = numpy.array(x["values"], dtype=x["dtype"])
+            return base[::2]
         return numpy.array(x["values"], dtype=x["dtype"])
     if k == "arr_str":
         return numpy.array(x["values"], dtype=numpy.str_)
@@ -216,11 +229,37 @@ def obs_indices(a):
     return [int(v) for v in a.view(numpy.ndarray)]
 
 
+def scribble(arg, a, n):
+    """What a caller may do once Enum.encode has returned: reuse ITS input buffer.  Every item of a numpy
+    input array (or of a list) is overwritten with something else - another valid index, or a value that
+    designates nothing.  The array that encode returned must not be concerned.  (Not when encode
+    returned its argument itself: an EnumArray is handed back as it is.)"""
+    if a is arg:
+        return
+    if isinstance(arg, list):
+        arg[:] = [None] * len(arg)
+        return
+    if not isinstance(arg, numpy.ndarray) or arg.size == 0 or not arg.flags.writeable:
+        return
+    kind = arg.dtype.kind
+    if kind in "iu":
+        hi = int(numpy.iinfo(arg.dtype).max)
+        old = [int(v) for v in arg]
+        new = [((v + 1) % n if n > 1 and 0 <= v < n else 0) if p % 2 == 0 else min(hi, 200 + p % 50) for p, v in enumerate(old)]
+        arg[...] = numpy.array(new, dtype=arg.dtype)
+    elif kind == "U":
+        arg[...] = "~"
+    elif kind == "O":
+        arg[...] = None
+
+
 def run_round(classes, x):
-    """classes[0].encode(x), then decode / decode_to_str / encode again of what was accepted."""
+    """classes[0].encode(x); the caller then overwrites its input buffer (scribble); then the indices held,
+    decode / decode_to_str / encode again of what was accepted."""
     E = classes[0]
     arg = mk_input(classes, x)
     a = E.encode(arg)                      # an exception here is the whole observation
+    scribble(arg, a, len(members_of(E)))
     enc = obs_indices(a)
     if x["k"] == "encoded" and a is not arg:
         raise RuntimeError("harness: an EnumArray was not returned as is")
@@ -322,7 +361,9 @@ def run_views(classes, c):
     decode the whole again.  Besides what the model answers, every part is compared with a freshly built
     EnumArray of the same indices (decode, decode_to_str, repr, str, ==): the differences go to `checks`."""
     E = classes[0]
-    a = E.encode(mk_input(classes, c["input"]))
+    arg = mk_input(classes, c["input"])
+    a = E.encode(arg)
+    scribble(arg, a, len(members_of(E)))
     n = len(a)
     members = list(E)
     checks = []
@@ -404,7 +445,7 @@ def rle(values):
 
 def long_case_as_encode(c):
     """The long case written out element by element (for the oracle; never stored)."""
-    return {"op": "encode", "enums": c["enums"],
+    return {"op": "encode", "enums": c["enums"], "no_scribble": True,
             "input": {"k": "seq", "container": c["container"], "elems": expand_runs(c["runs"])}}
 
 
@@ -456,7 +497,10 @@ def run_impl(c):
     E = classes[0]
     op = c["op"]
     if op == "encode":
-        return obs_indices(E.encode(mk_input(classes, c["input"])))
+        arg = mk_input(classes, c["input"])
+        a = E.encode(arg)
+        scribble(arg, a, len(members_of(E)))
+        return obs_indices(a)
     if op == "round":
         return run_round(classes, c["input"])
     if op == "decode":
@@ -712,7 +756,26 @@ def oracle_long(c, o):
     return None
 
 
+NOTE = " [all observed after the caller overwrote its own input buffer, which must not concern the array encode returned]"
+
+
+def overwritten(c):
+    if c["op"] == "multi":
+        return True
+    if c["op"] not in ("encode", "round", "views") or c.get("no_scribble"):
+        return False
+    x = c["input"]
+    return x["k"] in ("arr_int", "arr_str", "arr_obj") or (x["k"] == "seq" and x["container"] == "list")
+
+
 def oracle(c, o):
+    msg = _oracle(c, o)
+    if msg and overwritten(c) and NOTE not in msg and not isinstance(o, Err):
+        msg += NOTE
+    return msg
+
+
+def _oracle(c, o):
     op = c["op"]
     if op == "long":
         return oracle_long(c, o)
@@ -836,7 +899,7 @@ def classify(c, o):
         x = c["input"]
         tag += ":" + x["k"]
         if x["k"] == "arr_int":
-            tag += ":" + x["dtype"]
+            tag += ":" + x["dtype"] + (":" + x["via"] if x.get("via") else "")
         elif x["k"] == "seq":
             tag += ":" + x["container"]
         elif x["k"] == "arr_other":
@@ -1081,6 +1144,12 @@ def battery(rng, names, foreign, aliases=None):
         bad = bad_ints(rng, n, dt)
         vals = place(rng, good, bad, rng.choice(WHERE))
         enc({"k": "arr_int", "dtype": dt, "values": vals})
+    for via in ("view", "bytearray", "strided", None):        # arrays that already have the index dtype (uint8), and int8
+        good = idx(lengths(rng, n))
+        enc({"k": "arr_int", "dtype": "uint8", "values": good, "via": via})
+    vals = place(rng, idx(lengths(rng, n)), [v for v in (n, n + 1, 200, 255) if v >= n], rng.choice(WHERE))
+    enc({"k": "arr_int", "dtype": "uint8", "values": vals, "via": rng.choice(["view", "bytearray", "strided"])})
+    enc({"k": "arr_int", "dtype": "int8", "values": [min(i, 127) for i in idx(lengths(rng, n))]})
     dt = rng.choice(INT_DTYPES)
     enc({"k": "arr_int", "dtype": dt, "values": [v for v in range(n) if v <= DT_RANGE[dt][1]]})
     for _ in range(2):
@@ -1183,8 +1252,10 @@ def view_cases(rng, count):
         picks = [rng.randrange(n) for _ in range(L)]
         if rng.random() < 0.3 and L >= n:             # every member, declaration order (then the rest)
             picks[:n] = range(n)
-        kind = rng.choice(["arr_int", "arr_str", "seq_str", "seq_int", "arr_obj", "seq_mem", "encoded"])
-        if kind == "arr_int":
+        kind = rng.choice(["arr_int", "arr_u8", "arr_str", "seq_str", "seq_int", "arr_obj", "seq_mem", "encoded"])
+        if kind == "arr_u8":
+            x = {"k": "arr_int", "dtype": "uint8", "values": picks, "via": rng.choice(["view", "bytearray", "strided", None])}
+        elif kind == "arr_int":
             x = {"k": "arr_int", "dtype": rng.choice(["int16", "int32", "int64", "uint8", "uint16", "uint32", "uint64"]), "values": picks}
         elif kind == "arr_str":
             x = {"k": "arr_str", "values": [names[i] for i in picks]}
